@@ -10,8 +10,15 @@ options; with `max_iter(5)` on the flash the stability analysis now gives up bef
 
 Rule: for every function with a parameter of type `SolverOptions`, the set of default pairs under which that parameter is
 unwrapped — by the function itself, the closures written in it, or any function it is forwarded to, transitively — has at most
-one element.  (Pairs `(SolverOptions, SolverOptions)` for outer / inner loops are different parameters and not covered.)"""
-from cfg import Defs, provenance
+one element.
+
+R66b PAIR-ROLES (bubble / dew points, "for all solver option pairs (inner, outer)"): in a function that takes a pair
+`(SolverOptions, SolverOptions)` and unwraps its components field by field, (i) each (component, field) is unwrapped under one
+default only, (ii) the `for` loop bounded by component k's `max_iter` is left on a comparison against component k's `tol`: a
+comparison with the other component's tolerance that leaves the loop (`err_out < options_inner.tol.unwrap_or(..)` in the outer
+loop) makes the user's outer tolerance a dead letter — with default options both are 1e-9 / 1e-10 and nothing is visible, and
+(iii) a pair that is rebuilt from the components of another pair keeps their positions."""
+from cfg import Defs, provenance, dominators
 from facts import callee
 from report import RuleResult
 
@@ -82,5 +89,216 @@ def run(F):
                    fn, len(fams), "; ".join("%s in %s" % ("/".join(x.split("::")[-1] for x in d), w.split("::")[-1]) for d, w in sorted(D[k])),
                    (", forwarded to %s" % culprit[0].split("::")[-1]) if culprit else ""))
     r.floor("options-taking functions with a single family of defaults", n, 18)
+    _pairs(F, r)
     r.exhaustive = True
     return [r]
+
+
+def _is_pair(ty):
+    s = (ty or {}).get("s", "")
+    return s.count("SolverOptions") == 2 and s.startswith("(")
+
+
+def _back(x, defs, start, calls=("into_iter", "unwrap_or", "min", "max")):
+    """backward closure of locals over copies / refs / casts / aggregates / arithmetic and argument 0.. of the named calls"""
+    seen, work = set(), list(start)
+    while work:
+        l = work.pop()
+        if l in seen:
+            continue
+        seen.add(l)
+        for d in defs.of(l):
+            if d[0] == "call":
+                if str(callee(d[2])[2]) in calls:
+                    work += [a["place"]["l"] for a in d[2]["args"] if a.get("k") in ("copy", "move")]
+                continue
+            rv = d[4]
+            k = rv["k"]
+            ops = []
+            if k in ("use", "cast", "repeat"):
+                ops = [rv["op"]]
+            elif k in ("ref", "discr"):
+                work.append(rv["place"]["l"])
+            elif k == "unop":
+                ops = [rv["a"]]
+            elif k == "binop":
+                ops = [rv["a"], rv["b"]]
+            elif k == "agg":
+                ops = rv["ops"]
+            work += [o["place"]["l"] for o in ops if o.get("k") in ("copy", "move")]
+    return seen
+
+
+def _loops(b):
+    dom = dominators(b)
+    succs, preds = b.succs(), b.preds()
+    loops = {}
+    for u, ss in enumerate(succs):
+        if u not in dom:
+            continue
+        for v in ss:
+            if v in dom[u]:
+                body, st = {v, u}, [u]
+                while st:
+                    y = st.pop()
+                    if y == v:
+                        continue
+                    for q in preds[y]:
+                        if q not in body and q in dom:
+                            body.add(q)
+                            st.append(q)
+                loops.setdefault(v, set()).update(body)
+    return loops
+
+
+def _component(x, defs, local, pair_params, depth=0):
+    """(parameter, component index) a SolverOptions-typed local is a copy of, or None"""
+    if depth > 8:
+        return None
+    got = set()
+    for d in defs.of(local):
+        if d[0] != "stmt" or d[3]["p"]:
+            return None
+        rv = d[4]
+        if rv["k"] == "ref":
+            pl = rv["place"]
+        elif rv["k"] in ("use", "cast") and rv["op"].get("k") in ("copy", "move"):
+            pl = rv["op"]["place"]
+        else:
+            return None
+        proj = [q for q in pl["p"] if q != "*"]
+        if pl["l"] in pair_params and len(proj) == 1 and isinstance(proj[0], dict) and "f" in proj[0]:
+            got.add((pl["l"], proj[0]["f"]))
+        elif not proj:
+            got.add(_component(x, defs, pl["l"], pair_params, depth + 1))
+        else:
+            return None
+    return got.pop() if len(got) == 1 and None not in got else None
+
+
+def _pairs(F, r):
+    n_fn = n_loop = n_exit = 0
+    for b in F.bodies:
+        if b.is_closure() or not b.path.startswith(("feos_core::", "feos_dft::", "feos::")) or "::tests::" in b.path or "::python::" in b.path:
+            continue
+        pp = [l for l in range(1, b["arg_count"] + 1) if _is_pair(b.lty(l))]
+        if not pp:
+            continue
+        defs = Defs(b)
+        fn = b.path.split("::", 1)[-1]
+        # (iii) rebuilt pairs keep positions
+        for bi, si, st in b.stmts():
+            rv = st["rv"]
+            if rv["k"] == "agg" and not st["place"]["p"] and _is_pair(b.lty(st["place"]["l"])) and len(rv["ops"]) == 2:
+                for pos, o in enumerate(rv["ops"]):
+                    if o.get("k") not in ("copy", "move"):
+                        continue
+                    pl = o["place"]
+                    proj = [q for q in pl["p"] if q != "*"]
+                    c = None
+                    if pl["l"] in pp and len(proj) == 1 and isinstance(proj[0], dict) and "f" in proj[0]:
+                        c = (pl["l"], proj[0]["f"])
+                    elif not proj:
+                        c = _component(b, defs, pl["l"], pp)
+                    if c is not None and c[1] != pos:
+                        r.inst("pairroles|%s|rebuild" % fn, st.get("span") or b.file_line(), "violation")
+                        r.fail("pairroles|%s|rebuild-swapped" % fn.split("::")[-1], st.get("span") or b.file_line(),
+                               "%s: component %d of its (inner, outer) SolverOptions pair is placed at position %d of the pair it builds: "
+                               "the inner-loop options steer the outer loop and vice versa" % (fn, c[1], pos))
+        # field-wise unwraps
+        unw = []   # (component, field name, default text, block, dest local, span)
+        for bi, t in b.calls():
+            if str(callee(t)[2]) != "unwrap_or" or not t["args"] or t["args"][0].get("k") not in ("copy", "move"):
+                continue
+            for d in defs.of(t["args"][0]["place"]["l"]):
+                if d[0] != "stmt" or d[4]["k"] != "use" or d[4]["op"].get("k") not in ("copy", "move"):
+                    continue
+                pl = d[4]["op"]["place"]
+                proj = [q for q in pl["p"] if q != "*"]
+                if not proj or not isinstance(proj[-1], dict) or "f" not in proj[-1]:
+                    continue
+                fieldname = proj[-1].get("n") or str(proj[-1]["f"])
+                if fieldname not in ("max_iter", "tol"):
+                    continue
+                if len(proj) == 2 and pl["l"] in pp and isinstance(proj[0], dict) and "f" in proj[0]:
+                    c = (pl["l"], proj[0]["f"])
+                elif len(proj) == 1:
+                    c = _component(b, defs, pl["l"], pp)
+                else:
+                    c = None
+                if c is None:
+                    continue
+                a1 = t["args"][1]
+                dflt = str(a1.get("uneval") or a1.get("i") or a1.get("f") or a1.get("text")) if a1.get("k") == "const" else "?"
+                unw.append((c, fieldname, dflt, bi, t["dest"]["l"], t["span"]))
+        if not unw:
+            continue
+        n_fn += 1
+        by = {}
+        for c, f, dflt, bi, dl, sp in unw:
+            by.setdefault((c, f), {}).setdefault(dflt, sp)
+        for (c, f), ds in sorted(by.items()):
+            iid = "pairroles|%s|component%d.%s" % (fn, c[1], f)
+            if len(ds) == 1:
+                r.inst(iid, list(ds.values())[0], "ok", default=list(ds)[0].split("::")[-1])
+            else:
+                r.inst(iid, list(ds.values())[-1], "violation")
+                r.fail("pairroles|%s|component%d.%s|defaults" % (fn.split("::")[-1], c[1], f), list(ds.values())[-1],
+                       "%s: `%s` of component %d of the (inner, outer) options pair is unwrapped under %d different defaults (%s)" % (
+                           fn, f, c[1], len(ds), ", ".join(x.split("::")[-1] for x in sorted(ds))))
+        # (ii) loops bounded by component k's max_iter are left on component k's tol
+        loops = _loops(b)
+        owner = {}   # loop header -> component
+        succs = b.succs()
+
+        def innermost(bi):
+            inside = [q for q in loops if bi in loops[q]]
+            return min(inside, key=lambda q: len(loops[q])) if inside else None
+        for h, body in loops.items():
+            # the loop's own control: the iterator it advances (`for`) or the exit tests it evaluates itself (`while`)
+            src = set()
+            for bi in sorted(body):
+                if innermost(bi) != h:
+                    continue
+                tt = b.blocks[bi]["term"]
+                if tt["k"] == "call" and str(callee(tt)[2]) == "next" and tt["args"] and tt["args"][0].get("k") in ("copy", "move"):
+                    src |= _back(b, defs, [tt["args"][0]["place"]["l"]])
+                elif tt["k"] == "switch" and tt["op"].get("k") in ("copy", "move") and not all(q in body for q in succs[bi]):
+                    src |= _back(b, defs, [tt["op"]["place"]["l"]], calls=("unwrap_or",))
+            cs = {c for c, f, dflt, bi, dl, sp in unw if f == "max_iter" and dl in src}
+            if len(cs) == 1:
+                owner[h] = cs.pop()
+                n_loop += 1
+                r.inst("pairroles|%s|loop-of-component%d" % (fn, owner[h][1]), b.blocks[h].get("span") or b.file_line(), "ok", blocks=len(body))
+            elif len(cs) > 1:
+                r.inst("pairroles|%s|loop-of-two-components" % fn, b.file_line(), "violation")
+                r.fail("pairroles|%s|loop-bounded-by-both" % fn.split("::")[-1], b.file_line(),
+                       "%s: one loop is bounded by `max_iter` of both components of the (inner, outer) options pair" % fn)
+        for c, f, dflt, ubi, dl, sp in unw:
+            if f != "tol":
+                continue
+            for si, blk in enumerate(b.blocks):
+                t = blk["term"]
+                if t["k"] != "switch" or t["op"].get("k") not in ("copy", "move"):
+                    continue
+                if dl not in _back(b, defs, [t["op"]["place"]["l"]], calls=()):
+                    continue
+                inside = [h for h in owner if si in loops[h]]
+                if not inside:
+                    continue
+                h = min(inside, key=lambda q: len(loops[q]))
+                if all(s in loops[h] for s in succs[si]):
+                    continue
+                n_exit += 1
+                iid = "pairroles|%s|exit-of-loop%d-on-tol%d" % (fn, owner[h][1], c[1])
+                if owner[h] == c:
+                    r.inst(iid, sp, "ok")
+                else:
+                    r.inst(iid, sp, "violation")
+                    r.fail("pairroles|%s|loop%d-left-on-tol%d" % (fn.split("::")[-1], owner[h][1], c[1]), sp,
+                           "%s: the loop bounded by `max_iter` of component %d of the (inner, outer) options pair is left on a comparison "
+                           "against `tol` of component %d: the tolerance the caller set for this loop is never consulted (invisible with "
+                           "default options)" % (fn, owner[h][1], c[1]))
+    r.floor("R66b functions unwrapping an (inner, outer) options pair", n_fn, 1)
+    r.floor("R66b loops bounded by a component's max_iter", n_loop, 2)
+    r.floor("R66b loop exits on a component's tol", n_exit, 2)
